@@ -670,6 +670,41 @@ def elec2_cases(out: Outcome) -> None:
         uninstall_network()
 
 
+def generators_across_processes(out: Outcome, rng) -> None:
+    """"identically for equal seeds" - also from one run of a script to the next: two fresh interpreters started with DIFFERENT string-hash salts (PYTHONHASHSEED) and
+    this process must produce the same data sets"""
+    import hashlib
+    import json
+    import subprocess
+    import sys
+    from common import REPO
+    seed, n = rng.randint(0, 10**6), rng.randint(5, 30)
+    code = ("import sys, json, hashlib; sys.path.insert(0, %r)\n"
+            "import numpy as np\n"
+            "from frouros.datasets.synthetic import SEA, Dummy\n"
+            "req = json.loads(sys.stdin.read())\n"
+            "def dig(it): return hashlib.sha256(b''.join(np.asarray(X, dtype=float).tobytes() + bytes([int(y)]) for X, y in it)).hexdigest()\n"
+            "print(json.dumps([dig(SEA(seed=req['seed']).generate_dataset(block=2, noise=0.2, num_samples=req['n'])),"
+            " dig(Dummy(seed=req['seed']).generate_dataset(class_=1, num_samples=req['n']))]))\n") % str(REPO)
+    outs = []
+    for salt in ("1", "987654"):
+        r = subprocess.run([sys.executable, "-c", code], input=json.dumps({"seed": seed, "n": n}), capture_output=True, text=True, timeout=300,
+                           env={**os.environ, "PYTHONHASHSEED": salt})
+        if r.returncode != 0:
+            out.notes.append("fresh-interpreter generator run failed: " + r.stderr[-200:])
+            return
+        outs.append(json.loads(r.stdout.strip().splitlines()[-1]))
+
+    def dig(it):
+        return hashlib.sha256(b"".join(np.asarray(X, dtype=float).tobytes() + bytes([int(y)]) for X, y in it)).hexdigest()
+    here = [dig(SEA(seed=seed).generate_dataset(block=2, noise=0.2, num_samples=n)), dig(Dummy(seed=seed).generate_dataset(class_=1, num_samples=n))]
+    for k, name in enumerate(("SEA", "Dummy")):
+        if not (outs[0][k] == outs[1][k] == here[k]):
+            out.violation(f"{name}: generators constructed with seed={seed} in different interpreter processes produce different data sets",
+                          {"generator": name, "seed": seed, "num_samples": n, "kind": "processes"})
+    out.case({"generators_across_processes": True, "seed": seed})
+
+
 def run(out: Outcome) -> None:
     rng = rng_for(out.seed, "C20")
     thorough = out.tier == "thorough"
@@ -678,6 +713,7 @@ def run(out: Outcome) -> None:
                 "download()/load() calls on one object with the target file missing, empty or pre-filled")
     lines, expect = [], []
     sea_cases(out, rng, 60 if thorough else 15, lines, expect)
+    generators_across_processes(out, rng)
     download_cases(out, lines, expect, 3)
     history_cases(out, rng, lines, expect, 400 if thorough else 80)
     elec2_cases(out)
